@@ -315,6 +315,10 @@ class ExprMixin:
                 return Sc(self.bit_and(self.num(b, st)[0], a.v), INT)
             return self.bit_and_sym(a, b, st)
         if isinstance(op, ast.BitOr):
+            def _is_bool(v):
+                return (isinstance(v, PyConst) and isinstance(v.v, bool)) or (isinstance(v, Sc) and v.t == BOOL)
+            if _is_bool(a) and _is_bool(b):            # bool | bool is a bool in Python
+                return Sc(z3.Or(self.truth(a, st), self.truth(b, st)), BOOL)
             if isinstance(b, PyConst) and b.v >= 0:
                 return Sc(self.bit_or_const(self.num(a, st)[0], b.v), INT)
             if isinstance(a, PyConst) and a.v >= 0:
